@@ -80,3 +80,75 @@ Theorem C10_get_wedges_tree_refuted :
   clos_refl_trans _ (step 2%nat 0%nat false) init wedge /\ (forall s', ~ step 2%nat 0%nat false wedge s') /\ lock wedge = 1%nat /\ ~ final wedge.
 Proof. exact (conj wedge_reachable (conj wedge_stuck wedge_holds_lock)). Qed.
 Print Assumptions C10_get_wedges_tree_refuted.
+
+(* (b) the shape of that protocol is read off the source on every run.  Generated/ChanTable.v (tools/gen_chantable)
+   lists every channel operation of packages rib and server with its syntactic context; the obligations below are
+   closed boolean computations on it (Conc/ChanDefs.v), so a change of the source that breaks one of them makes
+   this file fail to compile.  Qualified names: ChanDefs / ChanFacts are not imported. *)
+From GV.Conc Require ChanDefs ChanFacts.
+From GV.Generated Require ChanTable.
+
+(* every send on a channel made by the Get handler - the five table loops of GetRIB, doGet's deferred done signal,
+   sendErr - is the comm of a select without default that also receives from stopCh: the producer can always be
+   stopped (transition s_pstop / s_done_stop of the LTS).  F10 and two seeded regressions were a plain send, or a
+   poll of stopCh followed by a plain send, in one of the five loops *)
+Theorem C10_getrib_sends_stoppable : ChanDefs.getrib_sends_stoppable ChanTable.chan_table = true.
+Proof. exact ChanFacts.getrib_sends_stoppable_ok. Qed.
+Print Assumptions C10_getrib_sends_stoppable.
+
+(* non-vacuity: the sends of (at least) five loops are seen, all of them in GetRIB *)
+Theorem C10_getrib_sends_seen :
+  ChanDefs.unstoppable_get_sends ChanTable.chan_table = [] /\ ChanDefs.producer_sends_in_getrib ChanTable.chan_table = true.
+Proof. exact ChanFacts.getrib_sends_stoppable_details. Qed.
+Print Assumptions C10_getrib_sends_seen.
+
+(* the handler: stopCh is closed by a defer registered unconditionally before the producer is spawned and before any
+   return - so on every exit, a failing stream.Send included - and nothing else is closed; stopCh is never sent on;
+   the handler sends on no channel and waits for a message only in a select that also listens on errCh and doneCh;
+   the four channels are unbuffered; every receive from stopCh in the producer returns *)
+Theorem C10_get_handler_closes_stop :
+  ChanDefs.get_handler_ok ChanTable.chan_table = true /\ ChanDefs.get_channels_rendezvous ChanTable.chan_table = true
+  /\ ChanDefs.stop_receives_exit ChanTable.chan_table = true.
+Proof. exact (conj ChanFacts.get_handler_ok_ok (conj ChanFacts.get_channels_rendezvous_ok ChanFacts.stop_receives_exit_ok)). Qed.
+Print Assumptions C10_get_handler_closes_stop.
+
+(* the producer: doGet's first statement defers the done signal; GetRIB releases the instance lock by a deferred
+   unlock; every error report made under a failed test (unknown instance, nil request, failed GetRIB) is followed
+   by return (a seeded regression dropped one and went on with a nil instance) *)
+Theorem C10_doget_exits :
+  ChanDefs.doget_exits_ok ChanTable.chan_table = true /\ ChanDefs.report_then_return ChanTable.chan_table = true
+  /\ ChanDefs.report_views_agree ChanTable.chan_table = true.
+Proof. exact (conj ChanFacts.doget_exits_ok_ok (conj ChanFacts.report_then_return_ok ChanFacts.report_views_agree_ok)). Qed.
+Print Assumptions C10_doget_exits.
+
+(* no channel operation that can block for ever once its partner has gone away with the RPC (anything but a receive
+   from a stop signal or a select with one) is made holding a lock of rib / server *)
+Theorem C10_blocking_ops_hold_no_lock :
+  ChanDefs.blocking_ops_hold_no_lock ChanFacts.inherited_locks ChanTable.chan_table = true.
+Proof. exact ChanFacts.blocking_ops_hold_no_lock_ok. Qed.
+Print Assumptions C10_blocking_ops_hold_no_lock.
+
+(* the link: the flag `fixed` of the LTS instantiated with the conjunction of these obligations computed on the
+   source (ChanFacts.source_fixed) - the protocol the source follows terminates and releases the lock; with the
+   flag false it is the protocol of C10_get_wedges_tree_refuted *)
+Theorem C10_source_follows_fixed_protocol : ChanFacts.get_protocol_of ChanTable.chan_table = true.
+Proof. exact ChanFacts.source_is_fixed_protocol. Qed.
+Print Assumptions C10_source_follows_fixed_protocol.
+
+Theorem C10_source_producer_can_stop n k s i :
+  pp s = P1 i -> (i < n)%nat -> stop s = true ->
+  step n k (ChanFacts.get_protocol_of ChanTable.chan_table) s {| pp := P3; hp := hp s; stop := stop s; lock := lock s |}.
+Proof. exact (ChanFacts.source_producer_can_stop n k s i). Qed.
+Print Assumptions C10_source_producer_can_stop.
+
+Theorem C10_get_of_source_terminates n k s :
+  Inv n (ChanFacts.get_protocol_of ChanTable.chan_table) s ->
+  Acc (fun b a => Inv n (ChanFacts.get_protocol_of ChanTable.chan_table) a /\ step n k (ChanFacts.get_protocol_of ChanTable.chan_table) a b) s.
+Proof. exact (ChanFacts.source_get_terminates n k s). Qed.
+Print Assumptions C10_get_of_source_terminates.
+
+Theorem C10_get_of_source_releases_lock n k s :
+  Inv n (ChanFacts.get_protocol_of ChanTable.chan_table) s ->
+  (forall s', ~ step n k (ChanFacts.get_protocol_of ChanTable.chan_table) s s') -> final s.
+Proof. exact (ChanFacts.source_get_releases_lock n k s). Qed.
+Print Assumptions C10_get_of_source_releases_lock.
